@@ -480,9 +480,10 @@ Fixpoint err_replies (n : node) (ids : list N) : node * list out :=
 (* ================================================================ two-node system (theorems) *)
 (* Two contexts A (side true) and B (side false), one TCP connection at a time, one FIFO channel
    per direction, the connection-level pending-request table of each end.  An end that has
-   closed never reads again (the channel towards it is discarded); what is sent towards an end
-   that has closed is lost; what was sent before the close can still be read by the other end
-   until it closes too (orderly TCP shutdown). *)
+   closed never reads again: what is (or gets) queued towards it is never delivered and is
+   discarded when a new connection is made; what was sent before the close can still be read by
+   the other end until it closes too (orderly TCP shutdown).  A new connection is made only when
+   both ends have closed the previous one. *)
 Record sys2 := mkSys2 {
   sA : node; sB : node;
   cAB : list msg; cBA : list msg;      (* in flight A->B, B->A (head = oldest) *)
@@ -505,7 +506,7 @@ Fixpoint route2 (sd : bool) (os : list out) (s : sys2) : sys2 :=
   match os with
   | [] => s
   | OSend _ m :: r =>
-      let s := if up s (negb sd) then w_ch sd (ch s sd ++ [m]) s else s in
+      let s := w_ch sd (ch s sd ++ [m]) s in
       let s := match req_id_of m with Some id => w_cp sd (cp s sd ++ [id]) s | None => s end in
       route2 sd r s
   | ORes _ :: r => route2 sd r s
@@ -543,7 +544,7 @@ Definition step2 (s : sys2) (l : label2) : option (sys2 * list out) :=
   | L2Connect =>
       if negb (up s true) && negb (up s false) then
         match node_step (sA s) (IPeerAdded (n_name (sB s))), node_step (sB s) (IPeerAdded (n_name (sA s))) with
-        | Some (a', _), Some (b', _) => Some (w_nd false b' (w_nd true a' s), [])
+        | Some (a', _), Some (b', _) => Some (w_ch true [] (w_ch false [] (w_nd false b' (w_nd true a' s))), [])
         | _, _ => None
         end
       else None
@@ -552,8 +553,7 @@ Definition step2 (s : sys2) (l : label2) : option (sys2 * list out) :=
         match node_step (nd s sd) (IPeerRemoved (n_name (nd s (negb sd)))) with
         | Some (n1, _) =>
             let '(n2, os) := err_replies n1 (cp s sd) in
-            let s := w_cp sd [] (w_ch (negb sd) [] (w_nd sd n2 s)) in
-            Some (route2 sd os s, os)
+            Some (route2 sd os (w_cp sd [] (w_nd sd n2 s)), os)
         | None => None
         end
       else None
